@@ -48,6 +48,9 @@ CHECKS = {
  "C19": ("pbt", "seeded proptest round-trip parse_json(to_json_string(x)) = x for a struct built from the library's traits, differential against serde_json (arbitrary precision)",
          "Exploration: 16k (quick) / 600k (thorough) values of a recursive struct implementing New/ToJSON/FromJSON in the README's style with every field kind present/absent (String, bool, i128, f64, nested object, array of objects, 15 typed arrays), nesting depth 0-4; the text must parse back to an equal value and must be read by serde_json as the same tree (integers exactly, floats by parsing the literal). One listed known finding (non-ASCII strings) is counted and excluded; 12% of the values carry non-ASCII text.",
          "The harness struct follows the documented pattern (an integer token is accepted for an f64 field); serde_json is the independent parser.", "DESIGN.md §4 C19"),
+ "C20": ("pbt", "seeded proptest totality check per parsing entry point: structure-aware mutation of valid documents, raw bytes, deep nesting, thousands of lines; supervised workers catch panics, aborts and non-termination",
+         "Exploration: 5k (quick) / 200k (thorough) inputs for each of 35 parsing entry points; every call must return Ok or Err. Panics are caught in-process; a stack overflow or abort kills the worker and is attributed to the in-flight case by the supervisor; a case that has not returned after 60 s (slowest legitimate case measured in evidence: under 1 s) is reported as hang:<entry point> because the statement includes termination.",
+         "Inputs to &str/String entry points are lossily converted to UTF-8; 2 MiB stack as the server's workers; the two legacy underscore-prefixed readers without an error channel (Response::_parse_response, Range::_parse_multipart_body) are not counted as entry points the library offers.", "DESIGN.md §4 C20"),
 }
 
 NOT_YET = "check not built yet in this commit (see DESIGN.md §9 implementation order); will be claimed when its generator and oracle are in place"
